@@ -11,4 +11,10 @@ func init() {
 	if os.Getenv("BMV_SLOWQ") != "" {
 		symgo.SlowQueryLog = func(s string) { fmt.Fprintln(os.Stderr, "SLOW:", s) }
 	}
+	if os.Getenv("BMV_RACEDUMP") != "" {
+		symgo.RaceDump = func(s string) { fmt.Fprintln(os.Stderr, "RACE:", s) }
+		if v := os.Getenv("BMV_RACEDUMP"); v != "1" {
+			symgo.RaceDumpPos = v
+		}
+	}
 }
